@@ -526,7 +526,7 @@ def unit_average(S):
         split = ctx.uf("split", [ir.KeySort, z3.IntSort(), z3.IntSort()], ir.KeySort)
         from lvc.vc import term_contains
         Ki, Ki2 = c.operands[0].at(i), c.operands[0].at(i2)
-        S.prove(f"{tag}/episode-keys-derived-and-pairwise-different", ctx, z3.And(z3.BoolVal(term_contains(Ki, kc)), Ki != Ki2), hyps=[i >= 0, i < Ez, i2 >= 0, i2 < Ez, i != i2] + kit.rng_index_injective(ctx), function=F_AVG,
+        S.prove(f"{tag}/episode-keys-derived-and-pairwise-different", ctx, z3.And(z3.BoolVal(term_contains(Ki, kc)), Ki != Ki2), hyps=[i >= 0, i < Ez, i2 >= 0, i2 < Ez, i != i2] + kit.rng_ground_injectivity([Ki, Ki2]), function=F_AVG,
                 what="episode i runs on a key derived from the given key and i; different episodes get different keys (A-RNG: split / fold_in injective in the index), however derived: independent episodes")
         if max_steps is not None:
             S.prove(f"{tag}/step-cap-forwarded", ctx, ir.seq(c.operands[1].scalar(), max_steps), function=F_AVG, what="the step cap is handed to every episode")
